@@ -149,6 +149,15 @@ func (g *FG) locate(n ast.Node) (point, bool) {
 			}
 		}
 	}
+	// a copy made by the inliner (inline.go) carries the position of the call it replaced and
+	// may be longer than it: its start lies inside the node that holds it
+	for _, b := range g.order {
+		for i, nd := range b.Nodes {
+			if nd.Pos() <= n.Pos() && n.Pos() < nd.End() {
+				return point{b, i}, true
+			}
+		}
+	}
 	return point{}, false
 }
 
